@@ -66,6 +66,13 @@ func main() {
 			c.timeoutMs = 120000
 		}
 	}
+	if c.wall == 0 {
+		// per-harness exploration budget; on the unchanged tree no harness comes near it
+		c.wall = 300 * time.Second
+		if c.tier == "thorough" {
+			c.wall = 2400 * time.Second
+		}
+	}
 	if c.pathLimit == 0 {
 		c.pathLimit = 120 * time.Second
 		if c.tier == "thorough" {
